@@ -423,8 +423,230 @@ def cases_for (lens, threecuts):
     for c in itertools.combinations(critical(lens), 3): yield ("cuts", c)
 
 
+
+# ---------------------------------------------------------------------------------------------------
+# controller, live: the connection goes through its real handshake INSIDE the segmented stream
+# ---------------------------------------------------------------------------------------------------
+# The recorder table of CtrlEnd fixes con.handlers; the real connection rebinds it when the handshake completes
+# (HandshakeOpenFlowHandlers -> DefaultOpenFlowHandlers).  Here nothing is replaced: stream = hello, features
+# reply, the message that completes the handshake (barrier reply, or the HP-style error), then 0..n ordinary
+# messages; what the connection delivers is observed where applications see it - events raised on the nexus
+# (ConnectionUp, PacketIn, PortStatus, BarrierIn, FlowRemoved; each carrying the decoded message) and what the
+# connection writes (requests of the handshake, echo replies).  The expectation is computed from the message
+# list alone, so it is the same for every segmentation (including one read per message).
+LIVE_TAIL = [
+  ("packet_in",     lambda x: S.packet_in(x, _pat(61, 2), in_port=1, buffer_id=7, reason=W.OFPR_NO_MATCH)),
+  ("port_status",   lambda x: S.port_status(x, W.OFPPR_MODIFY,
+                                            W.phy_port(2, b"\x02\0\0\0\0\x02", b"p2", state=1, curr=0x82))),
+  ("barrier_reply", lambda x: S.barrier_reply(x)),
+  ("echo_request",  lambda x: W.echo_request(x, b"ping")),
+  ("flow_removed",  lambda x: S.flow_removed(x, _EXACT, cookie=5, priority=9, reason=1, duration_sec=3,
+                                             duration_nsec=4, idle_timeout=5, packet_count=6, byte_count=7)),
+]
+LIVE_FINISH = ("barrier_reply", "hp_error")
+LIVE_EVENT = {W.PACKET_IN: "PacketIn", W.PORT_STATUS: "PortStatus", W.BARRIER_REPLY: "BarrierIn",
+              W.FLOW_REMOVED: "FlowRemoved"}
+LIVE_DPID = 0xC02E
+
+
+class LiveEnd (object):
+  """Fresh nexus, fresh real of_01.Connection in the handshake state, nothing replaced.  libopenflow's xid counter
+  (a module global) is restarted for every connection so that the xid of the controller's handshake barrier is the
+  same in every case and the whole stream can be written down before it is cut."""
+  side = "controller-live"
+  def __init__ (self):
+    from mc import env
+    import pox.openflow.libopenflow_01 as of
+    of.generate_xid = of.xid_generator(1)
+    cs = env.ControllerStack()
+    for lst in cs.core._eventMixin_handlers.values():
+      lst[:] = [h for h in lst if getattr(h[1], "__self__", None) is not cs.nexus]
+    i = cs.connect()
+    self.cs, self.con, self.sock = cs, cs.cons[i], cs.cons[i].sock
+    self.notes = []
+
+  feed = CtrlEnd.feed
+  residual = CtrlEnd.residual
+  open = CtrlEnd.open
+
+  def events (self):
+    out = []
+    for name, idx, e in self.cs.events:
+      if name == "ConnectionUp": out.append((name, None))
+      elif name in LIVE_EVENT.values(): out.append((name, e.ofp.pack()))
+    return out
+
+  def tx (self):
+    return W.split(self.sock.tx)[0]
+
+
+def live_xids ():
+  """Pilot: one message per read up to the features reply; returns (features request xid, barrier request xid)."""
+  end = LiveEnd()
+  for _ in end.feed(W.hello(1)): pass
+  fr = [m for m in end.tx() if m[1] == W.FEATURES_REQUEST]
+  if not fr: raise HandshakeFailed("no-features-request-after-hello")
+  fx = W.parse_hdr(fr[0])[3]
+  for _ in end.feed(_live_features(fx)): pass
+  br = [m for m in end.tx() if m[1] == W.BARRIER_REQUEST]
+  if not br: raise HandshakeFailed("no-barrier-request-after-features-reply")
+  return fx, W.parse_hdr(br[0])[3]
+
+
+def _live_features (xid):
+  return S.features_reply(xid, LIVE_DPID, [W.phy_port(1, b"\x02\0\0\0\0\x01", b"p1"),
+                                           W.phy_port(2, b"\x02\0\0\0\0\x02", b"p2")])
+
+
+def live_build (seq, xids):
+  fx, bx = xids
+  fin = S.barrier_reply(bx) if seq[0] == "barrier_reply" else \
+        S.error(bx, W.OFPET_BAD_REQUEST, W.OFPBRC_BAD_TYPE, W.barrier_request(bx))
+  tab = dict(LIVE_TAIL)
+  return [W.hello(1), _live_features(fx), fin] + [tab[n](0x0C02E000 + 0x101 * (i + 1)) for i, n in enumerate(seq[1:])]
+
+
+def live_expected (msgs, upto):
+  """(events, writes) a connection owes for the first `upto` messages: [(name, bytes, msg index)], [(type, bytes or None)]."""
+  ev = []; tx = [(W.HELLO, None)]
+  for j, m in enumerate(msgs[:upto]):
+    t = m[1]
+    if j == 0: tx += [(W.FEATURES_REQUEST, None), (W.STATS_REQUEST, None)]
+    elif j == 1: tx += [(W.SET_CONFIG, None), (W.FLOW_MOD, None), (W.BARRIER_REQUEST, None)]
+    elif j == 2: ev.append(("ConnectionUp", None, j))
+    elif t in LIVE_EVENT: ev.append((LIVE_EVENT[t], m, j))
+    elif t == W.ECHO_REQUEST: tx.append((W.ECHO_REPLY, m[:1] + bytes([W.ECHO_REPLY]) + m[2:]))
+  return ev, tx
+
+
+def run_live_case (seq, xids, kind, arg, src="/repo", trace=None):
+  """Returns (violation or None, profile, nreads)."""
+  side = "controller-live"
+  def bad (clause, cls, what):
+    return ("%s:%s:%s:%s" % (PID, side, clause, cls), "%s: %s" % (side, what))
+  msgs = live_build(seq, xids)
+  stream = b"".join(msgs)
+  ends = list(itertools.accumulate(len(m) for m in msgs))
+  end = LiveEnd()
+  fed = 0; nreads = 0; queued = 0
+  done_at = {}            # message index -> number of the read call that brought its last byte
+  profile = []
+  def where (j):
+    if j is None or j not in done_at: return "not-yet-complete"
+    if j > 2 and done_at[j] == done_at.get(2): return "same-read-as-handshake-completion"
+    return "same-read-as-previous-message" if j > 0 and done_at[j] == done_at.get(j - 1) else "own-read"
+  def compare (final):
+    complete = bisect.bisect_right(ends, fed)
+    ev_exp, tx_exp = live_expected(msgs, complete)
+    ev = end.events(); tx = end.tx()
+    for k in range(len(ev)):
+      if k >= len(ev_exp):
+        return bad("early-or-extra", _pclass(fed, ends), "event %s raised although only %d messages are complete in the %d bytes "
+                   "received (events owed: %s)" % (ev[k][0], complete, fed, [e[0] for e in ev_exp]))
+      if ev[k] != ev_exp[k][:2]:
+        j = ev_exp[k][2]
+        if ev[k][0] == ev_exp[k][0] and not any(ev[k] == x[:2] for x in ev_exp[k+1:]):
+          return bad("corrupt", where(j), "the %s event for message %d carries a message that re-packs to different bytes" % (ev[k][0], j))
+        return bad("lost", where(j), "message %d (%s) was received completely but its %s event was never raised (%s raised in its "
+                   "place); events so far %s" % (j, W.TYPE_NAMES[msgs[j][1]], ev_exp[k][0], ev[k][0], [e[0] for e in ev]))
+    if final and len(ev) < len(ev_exp):
+      j = ev_exp[len(ev)][2]
+      return bad("lost", where(j), "message %d (%s) was received completely but its %s event was never raised; events at the end "
+                 "of the stream %s, owed %s" % (j, W.TYPE_NAMES[msgs[j][1]], ev_exp[len(ev)][0], [e[0] for e in ev], [e[0] for e in ev_exp]))
+    types = [m[1] for m in tx]
+    owed = [t for t, b in tx_exp]
+    if types != owed[:len(types)] or (final and types != owed) or any(b is not None and b != m for (t, b), m in zip(tx_exp, tx)):
+      return bad("writes-differ", _pclass(fed, ends), "connection wrote %s, owed %s after %d complete messages"
+                 % ([W.TYPE_NAMES[t] for t in types], [W.TYPE_NAMES[t] for t in owed], complete))
+    return None
+  for seg in segments(stream, kind, arg):
+    it = end.feed(seg)
+    queued += len(seg)
+    while True:
+      try:
+        signal.setitimer(signal.ITIMER_VIRTUAL, CASE_CPU_LIMIT, 1.0)
+        try:
+          got = next(it)
+        finally:
+          signal.setitimer(signal.ITIMER_VIRTUAL, 0)
+      except StopIteration:
+        break
+      except (Exception, CaseTimeout) as e:
+        et, ev_, tb = sys.exc_info()
+        site = _site(tb, src)
+        del tb
+        if site == "outside-pox": raise
+        return bad("hang" if isinstance(e, CaseTimeout) else "raises", "%s:%s" % (site, type(e).__name__),
+                   "%s: %s escaped the read path (%s) with %d of %d bytes received"
+                   % (type(e).__name__, str(e)[:160], site, queued - sum(len(c) for c in end.sock.rx), len(stream))), profile, nreads
+      nreads += 1
+      for j, e_ in enumerate(ends):
+        if fed < e_ <= fed + got: done_at[j] = nreads
+      fed += got
+      if end.notes:
+        return bad(end.notes[0], _pclass(fed, ends), "%s on a well-formed stream, %d bytes received" % (end.notes[0], fed)), profile, nreads
+      v = compare(False)
+      if trace is not None:
+        trace.append("read #%d: +%d bytes (total %d): events %s, wrote %s" % (nreads, got, fed, [e[0] for e in end.events()],
+                                                                               [W.TYPE_NAMES[m[1]] for m in end.tx()]))
+      if v: return v, profile, nreads
+      n_ev = len(end.events())
+      if not profile or profile[-1][1] != n_ev: profile.append((fed, n_ev))
+  if fed != len(stream): raise HarnessError("fed %d of %d bytes" % (fed, len(stream)))
+  v = compare(True)
+  if v: return v, profile, nreads
+  if end.residual():
+    return bad("residual", "at-end", "reassembly buffer holds %d bytes after the whole stream was delivered" % len(end.residual())), profile, nreads
+  if not end.open() or end.con.connect_time is None:
+    return bad("closed", "at-end", "connection closed / not up after a well-formed handshake and stream"), profile, nreads
+  return None, profile, nreads
+
+
+def live_cases (lens):
+  L = sum(lens)
+  yield ("cuts", tuple(itertools.accumulate(lens))[:-1])       # one message per read
+  yield ("cuts", ())
+  for p in range(1, L): yield ("cuts", (p,))
+  for k in CHUNKS:
+    if k < L: yield ("chunk", k)
+  P = list(range(1, L)) if L <= SMALL_STREAM else interesting(lens)
+  for c in itertools.combinations(P, 2): yield ("cuts", c)
+
+
+def _worker_live (item):
+  side, seq, threecuts, src = item
+  _guards()
+  rep = Report(PID, "model_checking")
+  try:
+    xids = live_xids()
+  except HandshakeFailed as e:
+    rep.evaluations += 1
+    rep.outcome((side, seq, "handshake", str(e)))
+    rep.violation("%s:%s:handshake:%s" % (PID, side, e), "%s: hello / features reply handed to read() one at a time did not "
+                  "produce the controller's requests (%s)" % (side, e), dict(side=side, seq=list(seq), kind="cuts", arg=[]))
+    return rep
+  lens = [len(m) for m in live_build(seq, xids)]
+  first = True
+  for kind, arg in live_cases(lens):
+    v, profile, nreads = run_live_case(seq, xids, kind, arg, src)
+    rep.evaluations += 1
+    rep.transitions += nreads
+    rep.outcome((side, seq, tuple(profile), v and v[0]))
+    if v:
+      rep.violation(v[0], v[1] + " [handshake ended by %s, then %s; %s %r]" % (seq[0], "+".join(seq[1:]) or "nothing", kind,
+                                                                                list(arg) if kind == "cuts" else arg),
+                    dict(side=side, seq=list(seq), kind=kind, arg=list(arg) if kind == "cuts" else arg))
+    elif first and len(seq) > 2 and kind == "cuts" and len(arg) == 1 and arg[0] > sum(lens[:3]):
+      first = False
+      rep.sample(dict(side=side, sequence=list(seq), lengths=lens, cuts=list(arg), reads=nreads,
+                      events_after_bytes=[list(p) for p in profile]))
+  rep.state_count += rep.evaluations
+  return rep
+
+
 def _worker (item):
   side, seq, threecuts, src = item
+  if side == "controller-live": return _worker_live(item)
   _guards()
   rep = Report(PID, "model_checking")
   msgs = build(side, seq)
@@ -475,6 +697,7 @@ def run (cfg):
   env.boot()
   maxlen = cfg.pick(2, 3)
   threecuts = not cfg.quick
+  livelen = cfg.pick(2, 3)
   rep = Report(PID, "model_checking")
   rep.rule = ("both receivers (controller of_01.Connection.read after a completed handshake; switch RecocoIOWorker._do_recv -> "
               "OFConnection.read), handlers replaced by recorders; every sequence of 1..%d messages over the side's alphabet "
@@ -483,13 +706,20 @@ def run (cfg):
               "over P = {0..12 bytes after a message start, 0..2 bytes before a message end, k*2048-1..k*2048+1} (every 2-cut "
               "outright when L <= %d)%s; segments longer than the receiver's recv size (2048 controller, 8192 switch) are handed "
               "out in pieces. distinct = distinct (side, sequence, bytes-received -> delivered-count profile, verdict); states = "
-              "distinct (side, sequence, bytes received, residual buffer length)"
+              "distinct (side, sequence, bytes received, residual buffer length). controller-live: a fresh real Connection in "
+              "the handshake state with its real handler tables (nothing replaced); stream = hello, features reply, the "
+              "handshake-completing message (%s; xid of the controller's barrier), then every sequence of 0..%d (one less after "
+              "the HP-style error) of {%s}; "
+              "unsegmented, one message per read, every 1-cut, the fixed read sizes, every 2-cut over P; observed = nexus events "
+              "(ConnectionUp, PacketIn, PortStatus, BarrierIn, FlowRemoved with the re-packed message) and the connection's "
+              "writes, compared after every read with what the complete messages owe (computed from the message list)"
               % (maxlen, ", ".join("%s(%d)" % (n, len(f(1))) for n, f in CTRL),
                  ", ".join("%s(%d)" % (n, len(f(1))) for n, f in SWITCH), CHUNKS, SMALL_STREAM,
-                 ", every 3-cut over the header-critical positions {0,1,3,4,7,8 bytes into a message, its last byte}" if threecuts else ""))
+                 ", every 3-cut over the header-critical positions {0,1,3,4,7,8 bytes into a message, its last byte}" if threecuts else "",
+                 " / ".join(LIVE_FINISH), livelen, ", ".join(n for n, f in LIVE_TAIL)))
   rep.bound = dict(max_messages=maxlen, cuts="all 1-cuts; 2-cuts over P (all when L<=%d)%s; fixed read sizes"
                    % (SMALL_STREAM, "; 3-cuts over critical positions" if threecuts else ""),
-                   alphabet=dict(controller=len(CTRL), switch=len(SWITCH)))
+                   alphabet=dict(controller=len(CTRL), switch=len(SWITCH)), live_tail_messages=livelen)
   rep.assumptions = ["well-formed OpenFlow 1.0 messages only (malformed input is C10)",
                      "handlers are recorders: what a handler does with a delivered message is outside this property",
                      "a complete message that is delivered only by a later read is not flagged as long as everything is delivered, "
@@ -497,6 +727,9 @@ def run (cfg):
                      "2-/3-cut cases reuse the work item's receiver once it is verifiably back in the initial framing state "
                      "(buffer empty, socket drained, open, recorder installed); unsegmented / 1-cut / fixed-read-size cases and "
                      "the confirmation of every violation use a freshly built (controller: freshly handshaken) receiver",
+                     "controller-live: libopenflow's xid counter is restarted per connection (module global rebound) so the "
+                     "handshake barrier's xid is known when the stream is written; segmentations that put the barrier reply in "
+                     "the same read as the features reply are included although a real switch could not produce them",
                      "re-pack equality uses message forms libopenflow re-packs byte-for-byte (exact match, max_len 0)"]
   items = []
   for side in ("controller", "switch"):
@@ -512,6 +745,13 @@ def run (cfg):
       items.append((side, (small, second) * (n // 2), threecuts, cfg.pox_src))
   # heavy streams first so the pool drains evenly (order only; every item is run)
   items.sort(key=lambda it: -sum(len(m) for m in build(it[0], it[1])))
+  if not cfg.only or cfg.only == "controller-live":
+    tails = [n for n, f in LIVE_TAIL]
+    for fin in LIVE_FINISH:
+      # the HP-style completion takes the same path through read(); it gets one message less than the barrier reply
+      for k in range(0, livelen + (1 if fin == "barrier_reply" else 0)):
+        for tail in itertools.product(tails, repeat=k):
+          items.append(("controller-live", (fin,) + tail, threecuts, cfg.pox_src))
   for r in pmap(_worker, items, cfg.workers, seed=cfg.seed):
     rep.merge(r)
   rep.extra["streams"] = len(items)
@@ -523,6 +763,16 @@ def replay (cfg, data):
   env.boot()
   side, seq, kind, arg = data["side"], tuple(data["seq"]), data["kind"], data["arg"]
   _guards()
+  if side == "controller-live":
+    xids = live_xids()
+    trace = []
+    v, profile, nreads = run_live_case(seq, xids, kind, tuple(arg) if kind == "cuts" else arg, cfg.pox_src, trace=trace)
+    msgs = live_build(seq, xids)
+    lines = ["controller-live: hello, features reply, %s (completes the handshake), then %s; lengths %s; %s %r"
+             % (seq[0], "+".join(seq[1:]) or "nothing", [len(m) for m in msgs], kind, arg)]
+    lines += trace[:40] + (["... (%d reads)" % len(trace)] if len(trace) > 40 else [])
+    lines.append("=> %s" % (("%s: %s" % v) if v else "events and writes are exactly what the message sequence owes"))
+    return bool(v), "\n".join(lines)
   msgs = build(side, seq)
   trace = []
   v, profile, nreads, st = run_case(side, msgs, kind, tuple(arg) if kind == "cuts" else arg, cfg.pox_src, trace=trace)
